@@ -45,8 +45,8 @@ func (s *Sim) podByUID(uid string) *corev1.Pod {
 
 // exec executes one op with an injection plan; returns crashed=true if an injected crash stopped it.
 func (s *Sim) exec(o Op, plan map[int]world.InjectKind, provFail map[int]bool) (crashed bool) {
-	if len(s.Alarms) > 0 {
-		return false // the history already refuted something: later alarms would only be consequences
+	if s.ownAlarms() > 0 {
+		return false // the history already refuted the property in focus: later alarms would only be consequences
 	}
 	s.faultMode = world.None
 	for _, k := range plan {
@@ -147,7 +147,7 @@ func (s *Sim) exec(o Op, plan map[int]world.InjectKind, provFail map[int]bool) (
 	case "reload":
 		_ = s.stepReload(o.Topo)
 	case "apirelease":
-		s.stepAPIRelease()
+		s.stepAPIRelease(o.Str)
 	case "poolset":
 		s.poolEver[o.Str] = true
 		s.stepPoolSet(o.Str, o.Idx, o.Flag)
